@@ -6,7 +6,8 @@
    somewhere between its call and its ret event:
      get(s,k)   looks in s; on a miss continues in the parent (one step per level,
                 as the code does); the mutex of the level must be free
-     set(s,k,v) writes s only (never the parent); the mutex of s must be free
+     set(s,k,v) writes s only (never the parent); the mutex of s must be free; v = 1 stands for an explicit
+                nil: the key is PRESENT on that level and shadows the parent (a read answers 0 = nil)
      lock(s)    takes the mutex of s (free) ; lget / lset by the holder ; commit releases
    so no other goroutine's read, write or lock on s can take effect inside a locked
    section, and a read-modify-write under the lock is never lost. *)
@@ -18,6 +19,8 @@ tvars == <<l, data, holder, parent, pend>>
 
 Ev == TraceLog[l]
 Keys == {"a", "b", "cnt"}
+\* what a reader is handed for a stored value: 1 is "present with nil"
+Shown(v) == IF v = 1 THEN 0 ELSE v
 Init == TLCSet(1, 1) /\ l = 1 /\ data = << >> /\ holder = << >> /\ parent = << >> /\ pend = << >>
 Adv == l' = l + 1
 Reset == /\ l <= Len(TraceLog) /\ Ev.ev = "reset" /\ Adv
@@ -37,7 +40,7 @@ Lin == /\ UNCHANGED <<l, parent>>
           /\ ~p.done
           /\ CASE p.op = "get" ->
                     /\ Free(p.at, t) /\ UNCHANGED <<data, holder>>
-                    /\ IF data[p.at][p.k] # 0 THEN pend' = [pend EXCEPT ![t].done = TRUE, ![t].res = data[p.at][p.k]]
+                    /\ IF data[p.at][p.k] # 0 THEN pend' = [pend EXCEPT ![t].done = TRUE, ![t].res = Shown(data[p.at][p.k])]
                        ELSE IF parent[p.at] # "" THEN pend' = [pend EXCEPT ![t].at = parent[p.at]]
                        ELSE pend' = [pend EXCEPT ![t].done = TRUE, ![t].res = 0]
                [] p.op = "set" -> /\ Free(p.s, t) /\ data' = [data EXCEPT ![p.s][p.k] = p.v] /\ UNCHANGED holder
@@ -48,11 +51,11 @@ Lin == /\ UNCHANGED <<l, parent>>
                     /\ UNCHANGED <<data, holder>>
                     /\ IF p.at = p.s
                        THEN /\ holder[p.s] = t
-                            /\ IF data[p.s][p.k] # 0 THEN pend' = [pend EXCEPT ![t].done = TRUE, ![t].res = data[p.s][p.k]]
+                            /\ IF data[p.s][p.k] # 0 THEN pend' = [pend EXCEPT ![t].done = TRUE, ![t].res = Shown(data[p.s][p.k])]
                                ELSE IF parent[p.s] # "" THEN pend' = [pend EXCEPT ![t].at = parent[p.s]]
                                ELSE pend' = [pend EXCEPT ![t].done = TRUE, ![t].res = 0]
                        ELSE /\ Free(p.at, t)             \* the fall-through above the locked scope is a plain read
-                            /\ IF data[p.at][p.k] # 0 THEN pend' = [pend EXCEPT ![t].done = TRUE, ![t].res = data[p.at][p.k]]
+                            /\ IF data[p.at][p.k] # 0 THEN pend' = [pend EXCEPT ![t].done = TRUE, ![t].res = Shown(data[p.at][p.k])]
                                ELSE IF parent[p.at] # "" THEN pend' = [pend EXCEPT ![t].at = parent[p.at]]
                                ELSE pend' = [pend EXCEPT ![t].done = TRUE, ![t].res = 0]
                [] p.op = "lset" -> /\ holder[p.s] = t /\ data' = [data EXCEPT ![p.s][p.k] = p.v] /\ UNCHANGED holder
